@@ -446,7 +446,7 @@ func (tr *translator) rangeStmt(s *ast.RangeStmt, rest []ast.Stmt, e env) Sum {
 func (tr *translator) expr(x ast.Expr, e env) Sum {
 	x = ast.Unparen(x)
 	if tv, ok := tr.info.Types[x]; ok && tv.Value != nil {
-		v := tr.f.staticValue(tr.info, x)
+		v := tr.f.StaticValue(tr.info, x)
 		if v.Kind == VConst {
 			return SConst{v}
 		}
@@ -714,7 +714,7 @@ func (f *Facts) EvalCallExpr(info *types.Info, call *ast.CallExpr) Value {
 	var args []Value
 	if sel, ok := ast.Unparen(call.Fun).(*ast.SelectorExpr); ok {
 		if s := info.Selections[sel]; s != nil {
-			v := f.staticValue(info, sel.X)
+			v := f.StaticValue(info, sel.X)
 			if v.Kind != VConst {
 				return Value{Kind: VInvalid, Why: "receiver is not a constant"}
 			}
@@ -722,7 +722,7 @@ func (f *Facts) EvalCallExpr(info *types.Info, call *ast.CallExpr) Value {
 		}
 	}
 	for _, a := range call.Args {
-		v := f.staticValue(info, a)
+		v := f.StaticValue(info, a)
 		if v.Kind != VConst && v.Kind != VObj {
 			return Value{Kind: VInvalid, Why: "argument is not a constant"}
 		}
